@@ -313,7 +313,7 @@ func TestEncodeIdentity(t *testing.T) {
 }
 
 func TestEncodeIdentityRandom(t *testing.T) {
-	harness.Rapid(t, harness.N(8000, 16*20000), func(t *rapid.T) {
+	harness.Rapid(t, harness.N(8000, 16*80000), func(t *rapid.T) {
 		n := rapid.IntRange(1, 30).Draw(t, "n")
 		var c EncCase
 		for i := 0; i < n; i++ {
@@ -356,7 +356,7 @@ func checkPalette(c PalCase) error {
 var subPal = harness.Define("suggested-palette", "suggested palettes with 0-64 explicit valid premultiplied entries of every mix of 1/2/3/4-byte-encodable colours (incl. trailing and interior opaque blacks) through Encoder.Reset -> Decode: palette passed to Reset equals the original; non-trivial = at least one non-black entry", checkPalette)
 
 func TestSuggestedPalettes(t *testing.T) {
-	harness.Rapid(t, harness.N(15000, 16*40000), func(t *rapid.T) {
+	harness.Rapid(t, harness.N(15000, 16*160000), func(t *rapid.T) {
 		c := PalCase{Palette: gen.Palette(t, "pal", true)}
 		// interior blacks and a non-black last entry sometimes
 		if rapid.IntRange(0, 3).Draw(t, "last") == 0 {
@@ -528,7 +528,7 @@ func TestBlends(t *testing.T) {
 }
 
 func TestBlendsRandomContexts(t *testing.T) {
-	harness.Rapid(t, harness.N(8000, 16*30000), func(t *rapid.T) {
+	harness.Rapid(t, harness.N(8000, 16*120000), func(t *rapid.T) {
 		c := BlendCase{T: gen.BlendT(t, "t"), C0: rapid.Byte().Draw(t, "c0"), C1: rapid.Byte().Draw(t, "c1")}
 		c.Palette = gen.Palette(t, "pal", rapid.Bool().Draw(t, "validpal"))
 		c.CReg = gen.Palette(t, "creg", rapid.Bool().Draw(t, "validcreg"))
